@@ -36,8 +36,8 @@ CLAIMED = {
    note="File-system backend, and the sqlite event log at the level of its statements (sqlite itself not executed). Trusted: rustc MIR, mirsym, the vfs model (atomic file operations, no I/O errors), the ideal-hash rs_merkle model (validated in C08), z3. Outside: the sqlite implementation, the server-side event_patch / rollback_rewind and the client rewind_local orchestration, folder contents derived from the log.",
    design="DESIGN.md section 3, C07"),
  "C13": dict(
-   text="Bounded model checking with the crash point as a variable: apply_records, rewind, clear and replace_all_events of FileSystemEventLog run from the MIR of the current tree over the vfs model; the process dies before the j-th mutating file operation of the call (every j) or an append is torn at a solver-chosen byte offset, then the restart path (fresh instance + load_tree) runs on what is left. Obligation: the restart succeeds and the log equals its state before or after the interrupted operation. Violations are confirmed by writing the predicted disk image and re-opening it with the real code.",
-   note="File-system event log only; each modelled file operation is atomic and torn writes are modelled for appends. Known findings (torn tail is not recovered; replace_all_events is not crash-atomic) are listed in known_findings.txt. Outside: sqlite transactions, vault-file rewrites, multi-file operations of LocalAccount, the OS's real write atomicity, 'the folder served equals the replay of its log' after restart.",
+   text="Bounded model checking with the crash point as a variable: apply_records, rewind, clear and replace_all_events of FileSystemEventLog run from the MIR of the current tree over the vfs model; the process dies before the j-th mutating file operation of the call (every j) or an append is torn at a solver-chosen byte offset, then the restart path (fresh instance + load_tree) runs on what is left. Obligation: the restart succeeds and the log equals its state before or after the interrupted operation. Violations are confirmed by writing the predicted disk image and re-opening it with the real code. Database backend: the same operations of DatabaseEventLog over the table model of mirsym/sqlmodel.py, dying before each durability point (commit, or statement outside a transaction) of the call, then fresh instance + load_tree: the log equals pre or post and the co-resident log is untouched (model-level counterexamples).",
+   note="File-system event log, and the sqlite event log at statement level (a transaction is atomic, rolled back if the process dies before its commit); each modelled file operation is atomic and torn writes are modelled for appends. Known findings (torn tail is not recovered; replace_all_events is not crash-atomic) are listed in known_findings.txt. Outside: sqlite transactions, vault-file rewrites, multi-file operations of LocalAccount, the OS's real write atomicity, 'the folder served equals the replay of its log' after restart.",
    design="DESIGN.md section 3, C13"),
  "C11": dict(
    text="Bounded model checking of the server's decision functions from the MIR of sos-server: (A) AccessControlConfig::is_allowed_access for every configuration of <= 2 (quick) / 3 allow and deny entries (each list present or absent) with symbolic account ids - an id on the deny list or absent from a configured allow list is refused, everything else admitted; counterexamples replayed natively. (B) authenticate_endpoint with bearer(), BearerToken::new and Backend::verify_device: over header id present/absent, token with/without the legacy '.' form, account existing or not, 0..2 trusted device keys each verifying or not, four access configurations - a caller is returned only if the token has the current form, the access check passed and, for an existing account, a trusted key verified the signature over exactly the signed bytes it was given. (C) the trusted-device cache that verify_device consults: <SyncImpl<T> as Merge>::merge_device and ForceMerge::force_merge_device (override or provided method) with DeviceReducer::reduce, from the MIR of sos-server-storage / sos-sync / sos-reducers, over every trust/revoke sequence of 1..2 log events and 1..2 (3) patch events with symbolic keys - after every call that changed the device log the set given to set_devices equals the keys trusted by replaying the new log; counterexamples replayed on a real file-system ServerStorage.",
